@@ -134,6 +134,21 @@ func init() {
 				for time.Now().Before(deadline) && !hookSeen([]string{"limiter.acquired", "limiter.queued"}, paths[i], from) {
 					time.Sleep(2 * time.Millisecond)
 				}
+			case "startstop":
+				// the session is gone by the time its read command reaches the limiter
+				h := handlers.NewServerHandler(u, catLim, tailLim)
+				hs[i] = h
+				go func() {
+					buf := make([]byte, 32*1024)
+					for {
+						if _, err := h.Read(buf); err != nil {
+							return
+						}
+					}
+				}()
+				h.Shutdown()
+				go h.Write([]byte(wrap("tail: " + paths[i] + " regex:noop ")))
+				time.Sleep(60 * time.Millisecond)
 			case "stop":
 				if hs[i] != nil {
 					hs[i].Shutdown()
